@@ -5,6 +5,7 @@ package main
 // rename or a split of a function does not change what is checked.
 
 import (
+	"go/token"
 	"go/types"
 	"sort"
 
@@ -235,4 +236,128 @@ func (p *Prog) fieldByType(pkg, typ string, pred func(types.Type) bool) *types.V
 		}
 	}
 	return found
+}
+
+// the client connection's codec: a plain field in older trees, an atomic.Value with a getter
+// and a setter since it was found to be replaced while other goroutines encode with it
+type codecWrite struct {
+	Instr ssa.Instruction
+	Fn    *ssa.Function
+	Base  ssa.Value // the client object written to
+	Val   ssa.Value // the codec stored
+}
+
+type clientCodecRoleSet struct {
+	field   *types.Var
+	getters map[*ssa.Function]bool
+	setters map[*ssa.Function]int // parameter index of the stored codec
+}
+
+var clientCodecCache = map[*Prog]*clientCodecRoleSet{}
+
+func clientCodecRoles(p *Prog) *clientCodecRoleSet {
+	if c, ok := clientCodecCache[p]; ok {
+		return c
+	}
+	cl := p.proxyClientType()
+	cr := &clientCodecRoleSet{field: p.Field("proxy", cl.Obj().Name(), "codec"), getters: map[*ssa.Function]bool{}, setters: map[*ssa.Function]int{}}
+	for _, m := range p.methodsOf(cl) {
+		m := m
+		eachCall(m, func(c ssa.CallInstruction) {
+			fa, ok := firstArgField(c)
+			if !ok || fa != cr.field {
+				return
+			}
+			switch {
+			case callIsMethod(c, "sync/atomic", "Value", "Load"):
+				if m.Signature.Results().Len() == 1 && m.Signature.Params().Len() == 0 {
+					cr.getters[m] = true
+				}
+			case callIsMethod(c, "sync/atomic", "Value", "Store"):
+				inner := holderInner(c.Common().Args[1])
+				for i, par := range m.Params {
+					if i > 0 && inner == ssa.Value(par) {
+						cr.setters[m] = i
+					}
+				}
+			}
+		})
+	}
+	clientCodecCache[p] = cr
+	return cr
+}
+
+func firstArgField(c ssa.CallInstruction) (*types.Var, bool) {
+	args := c.Common().Args
+	if len(args) == 0 {
+		return nil, false
+	}
+	if fa, ok := args[0].(*ssa.FieldAddr); ok {
+		return fieldOfAddr(fa), true
+	}
+	return nil, false
+}
+
+// holderInner unwraps interface{}(holder{x}) to x (the single field of a wrapper struct).
+func holderInner(v ssa.Value) ssa.Value {
+	if mi, ok := v.(*ssa.MakeInterface); ok {
+		v = mi.X
+	}
+	if ld, ok := v.(*ssa.UnOp); ok && ld.Op == token.MUL {
+		if al, ok := ld.X.(*ssa.Alloc); ok {
+			for _, ref := range *al.Referrers() {
+				if fa, ok := ref.(*ssa.FieldAddr); ok {
+					for _, rr := range *fa.Referrers() {
+						if st, ok := rr.(*ssa.Store); ok && st.Addr == ssa.Value(fa) {
+							return st.Val
+						}
+					}
+				}
+			}
+		}
+	}
+	return v
+}
+
+// isValue reports whether v is the client's current codec (field load or getter call).
+func (cr *clientCodecRoleSet) isValue(v ssa.Value) bool {
+	for _, o := range origins(v) {
+		if f, _ := loadedField(o); f == cr.field {
+			return true
+		}
+		if c, ok := o.(*ssa.Call); ok && c.Call.StaticCallee() != nil && cr.getters[c.Call.StaticCallee()] {
+			return true
+		}
+	}
+	return false
+}
+
+// writes lists every place a codec is installed on a client object.
+func (cr *clientCodecRoleSet) writes(p *Prog) []codecWrite {
+	var out []codecWrite
+	for _, fn := range p.ScopedFuncs("proxy") {
+		eachInstr(fn, func(in ssa.Instruction) {
+			switch x := in.(type) {
+			case *ssa.Store:
+				if fa, ok := x.Addr.(*ssa.FieldAddr); ok && fieldOfAddr(fa) == cr.field {
+					out = append(out, codecWrite{x, fn, fa.X, x.Val})
+				}
+			case *ssa.Call:
+				if callee := x.Call.StaticCallee(); callee != nil {
+					if idx, ok := cr.setters[callee]; ok {
+						out = append(out, codecWrite{x, fn, x.Call.Args[0], x.Call.Args[idx]})
+						return
+					}
+				}
+				if callIsMethod(x, "sync/atomic", "Value", "Store") {
+					if f, ok := firstArgField(x); ok && f == cr.field {
+						if _, isSetter := cr.setters[fn]; !isSetter {
+							out = append(out, codecWrite{x, fn, x.Call.Args[0].(*ssa.FieldAddr).X, holderInner(x.Call.Args[1])})
+						}
+					}
+				}
+			}
+		})
+	}
+	return out
 }
